@@ -275,7 +275,7 @@ T8 = {
     "C01": "sign, signRFC6979 (retry loop), Sign, SignCompact, PrivateKey.PubKey, fieldToModNScalar",
     "C02": "Signature.Verify, modNScalarToField",
     "C03": "splitK, naf, ScalarMultNonConst, ScalarBaseMultNonConst",
-    "C07": "Signature.RecoverPublicKey, Signature.BruteforceRecoveryCode, Signature.Export, Signature.ExportCompact",
+    "C07": "Signature.RecoverPublicKey, RecoverCompact, Signature.BruteforceRecoveryCode, Signature.Export, Signature.ExportCompact",
     "C10": "NonceRFC6979 (key-buffer assembly, HMAC prelude, generation loop)",
     "C11": "schnorrSign, schnorrVerify, schnorr.Sign (retry loop)",
     "C12": "ExtendedKey.ChildWithIL, Child, FromSeed, Public, pubKeyBytes, serializeCompressedEcdsa, isEven",
